@@ -43,11 +43,16 @@ def make_bundle(length, crc, ext, flags, origin):
         # source without a clock (the bundle then carries an age block) and lifetime zero:
         # the values for which a locally created bundle would get defaults
         pri.update(ts=(0, 4), lifetime=0)
+    # crc 10 / 20: primary block without CRC, canonical blocks with CRC-16 / CRC-32; 1 / 2 etc.: all alike
+    bcrc = crc
+    if crc >= 10:
+        bcrc = crc // 10
+        pri['crc_type'] = 0
     blocks = []
     for (i, blk) in enumerate(EXT_SETS[ext]):
-        blk = dict(blk, num=i + 2, crc_type=crc if blk['type'] != 7 else 0)
+        blk = dict(blk, num=i + 2, crc_type=bcrc if blk['type'] != 7 else 0)
         blocks.append(blk)
-    blocks.append(dict(type=1, num=1, flags=0, crc_type=crc, data=payload_bytes(length)))
+    blocks.append(dict(type=1, num=1, flags=0, crc_type=bcrc, data=payload_bytes(length)))
     return dict(primary=pri, blocks=blocks)
 
 
@@ -240,6 +245,8 @@ def variants(tier):
     out.append((1, 'hop+repl', 'forward', 'plain', False, sparse))
     out.append((0, 'none', 'forward', 'plain', False, sparse))
     out.append((1, 'unk+age', 'forward-ts0', 'plain', False, sparse))
+    out.append((10, 'hop', 'local', 'plain', False, sparse))
+    out.append((20, 'hop+repl', 'local', 'plain', False, sparse))
     for flagname in ('dnf', 'isfrag'):
         out.append((1, 'hop', 'local', flagname, False, thin))
         out.append((1, 'hop', 'forward', flagname, False, thin))
